@@ -22,7 +22,12 @@ ASSUMPTIONS = ["the order of branches / paths in the returned lists is unspecifi
 @st.composite
 def case_strategy(draw, tier):
     max_n = 25 if tier == "quick" else 150
-    k = draw(st.integers(0, 9))
+    k = draw(st.integers(0, 40))
+    if k == 40:
+        # nodes with exactly 255, 256 and 257 children
+        return {"tree": {"bulk": [draw(st.integers(0, 2 ** 31 - 1)), draw(st.integers(769, 800)), "hubs", "lattice"]},
+                "then": "nothing", "sel": 0}
+    k = k % 10
     if k == 0:
         t = draw(gen_tree.tree_case(min_n=1, max_n=1, regimes=["lattice"]))
     elif k == 1:
@@ -38,13 +43,13 @@ def case_strategy(draw, tier):
             t["parents"] = par
     else:
         t = draw(gen_tree.tree_case(min_n=2, max_n=max_n, regimes=["lattice", "coincident", "float"]))
-    return {"tree": t, "then": draw(st.sampled_from(["nothing", "nothing", "sort", "redirect"])), "sel": draw(st.integers(0, 10 ** 6))}
+    return {"tree": t, "then": draw(st.sampled_from(["nothing", "nothing", "sort", "redirect", "reparent", "copy-reparent"])), "sel": draw(st.integers(0, 10 ** 6))}
 
 
 def run_case(case, ctx):
     from swcgeom.core import redirect_tree, sort_tree
 
-    t = case["tree"]
+    t = gen_tree.materialize(case["tree"])
     tree = gen_tree.build_tree(t)
     classes = gen_tree.shape_classes(t)
     ctx.cls(*classes)
@@ -55,6 +60,26 @@ def run_case(case, ctx):
     _decompose(t, tree, ctx)
     # a tree derived from the one that has just been inspected is decomposed on its own terms
     how = case.get("then", "nothing")
+    if max(len(c) for c in ch) >= 256:
+        ctx.cls("a-node-with-256-or-more-children")
+    if how in ("reparent", "copy-reparent") and n >= 3:
+        # the tree that has just been decomposed (or a copy of it) is re-parented in place through a node handle and
+        # decomposed again: every answer follows the tree as it is now
+        movable = [i for i in range(n) if t["parents"][i] != -1]
+        a = movable[case["sel"] % len(movable)]
+        below = models.descendants_or_self(t["parents"], a)
+        cands = [j for j in range(n) if j not in below and j != t["parents"][a]]
+        if cands:
+            b = cands[(case["sel"] // 7) % len(cands)]
+            target = tree.copy() if how == "copy-reparent" else tree
+            if case["sel"] % 2:
+                target.node(a).pid = b
+            else:
+                target.pid()[a] = b
+            t2 = dict(t, parents=[b if i == a else p for i, p in enumerate(t["parents"])])
+            ctx.cls("re-parented-in-place-after-a-first-decomposition:" + how)
+            _decompose(t2, target, ctx)
+        return
     if how != "nothing" and n >= 2:
         derived = sort_tree(tree) if how == "sort" else redirect_tree(tree, case["sel"] % n)
         t2 = dict(t, parents=[int(v) for v in derived.pid()])
@@ -177,5 +202,7 @@ SUBCHECKS = [
         required={"single-node": 20, "unbranched-chain": 20, "rootdeg:1": 20, "rootdeg:2": 20,
                   "rootdeg:3+": 20, "furcations>=2": 200, "permuted": 200,
                   "derived-tree-decomposed-after-its-source:sort": 100, "derived-tree-decomposed-after-its-source:redirect": 100,
-                  "source-edited-in-place-right-after-the-conversion": 300}),
+                  "source-edited-in-place-right-after-the-conversion": 300, "a-node-with-256-or-more-children": 10,
+                  "re-parented-in-place-after-a-first-decomposition:reparent": 100,
+                  "re-parented-in-place-after-a-first-decomposition:copy-reparent": 100}),
 ]
